@@ -74,7 +74,7 @@ package silence
 //@ spec mapMT(t pb.Matcher_Type) labels.MatchType = t == silencepb.Matcher_EQUAL ? labels.MatchEqual : (t == silencepb.Matcher_NOT_EQUAL ? labels.MatchNotEqual : (t == silencepb.Matcher_REGEXP ? labels.MatchRegexp : labels.MatchNotRegexp))
 //@ spec compiledAs(m *labels.Matcher, p *pb.Matcher) bool = m != nil && m.Type == mapMT(p.Type) && m.Name == p.Name && m.Value == p.Pattern
 //@ func (matcherIndex).add
-//@   props C02 C09 C12
+//@   props C02 C09 C12 C16
 //@   requires s != nil && c != nil
 //@   assumes wfMatchers(s)
 //@   ensures [ok] result1 == nil ==> dom(c) == setadd(old(dom(c)), s.Id) && vals(c) == upd(old(vals(c)), s.Id, result0)
@@ -170,7 +170,7 @@ package silence
 // retention, keeps ids it does not mention, re-gossips only what actually changed the state, and indexes every
 // silence it adds exactly once (so it becomes visible to queries and to the silencer).
 //@ func (*Silences).Merge
-//@   props C09 C02
+//@   props C09 C02 C19
 //@   ensures [monitor-lock-released] count("Mutex).Lock") == count("Mutex).Unlock") && count("Mutex).Lock") <= 1
 //@   at call state).merge assert [monitor-lock-held] count("Mutex).Lock") == 1 && count("Mutex).Unlock") == 0
 //@   requires s != nil && storeInv(s) && s.broadcast != nil && s.metrics != nil && s.metrics.propagatedMessagesTotal != nil
